@@ -495,7 +495,1269 @@ fn next_down(v: f64) -> f64 { -next_up(-v) }
 
 const DIMS: [usize; 7] = [1, 2, 3, 5, 8, 9, 17];
 
-include!("../c03_wrappers.rs");
-include!("../c03_models.rs");
-include!("../c03_models2.rs");
-include!("../c03_main.rs");
+// ================================================================================================
+// C03 harness, part 2: mock members, the composing wrappers, Platt scaling.
+
+/// mock single-target regressor. mode 0: a function of the row alone; mode 1: depends on the row
+/// index (like the DummyModel2 of the crate's tests); `extra` != 0 returns a vector of the wrong length.
+#[derive(Debug, Clone)]
+struct MockReg { tag: f64, mode: u8, extra: isize }
+impl<D: Data<Elem = f64>> PredictInplace<ArrayBase<D, Ix2>, Array1<f64>> for MockReg {
+    fn predict_inplace(&self, x: &ArrayBase<D, Ix2>, y: &mut Array1<f64>) {
+        let n = (x.nrows() as isize + self.extra).max(0) as usize;
+        let p = x.ncols();
+        *y = (0..n)
+            .map(|i| {
+                if self.mode == 0 && i < x.nrows() && p > 0 {
+                    self.tag * 1000.0 + 7.0 * x[(i, 0)] - x[(i, p - 1)]
+                } else {
+                    self.tag * 1000.0 + i as f64
+                }
+            })
+            .collect();
+    }
+    fn default_target(&self, x: &ArrayBase<D, Ix2>) -> Array1<f64> { Array1::zeros(x.nrows()) }
+}
+
+/// mock probability model: probabilities are multiples of 1/4 so that ties between members are frequent
+#[derive(Debug, Clone)]
+struct MockPr { tag: f64, mode: u8, extra: isize }
+impl<D: Data<Elem = f64>> PredictInplace<ArrayBase<D, Ix2>, Array1<Pr>> for MockPr {
+    fn predict_inplace(&self, x: &ArrayBase<D, Ix2>, y: &mut Array1<Pr>) {
+        let n = (x.nrows() as isize + self.extra).max(0) as usize;
+        *y = (0..n)
+            .map(|i| {
+                let v = if self.mode == 0 && i < x.nrows() && x.ncols() > 0 {
+                    (x[(i, 0)] * (self.tag + 1.0)).rem_euclid(5.0).floor() / 4.0
+                } else if self.mode == 2 {
+                    0.5
+                } else {
+                    ((i as f64 * (self.tag + 1.0)) % 5.0).floor() / 4.0
+                };
+                Pr::new(v as f32)
+            })
+            .collect();
+    }
+    fn default_target(&self, x: &ArrayBase<D, Ix2>) -> Array1<Pr> { Array1::default(x.nrows()) }
+}
+
+fn lattice(rng: &mut Sm64, n: usize, p: usize) -> Array2<f64> {
+    Array2::from_shape_fn((n, p), |_| rng.range(-6, 6) as f64 * 0.5)
+}
+
+fn multi_target_cases(ctx: &mut Ctx, rng: &mut Sm64, thorough: bool) {
+    let mut shapes: Vec<(usize, usize, u8, isize)> = Vec::new();
+    for n in 0..=4 { for m in 0..=4 { for mode in 0..2u8 { shapes.push((n, m, mode, 0)); } } }
+    let nrand = if thorough { 120 } else { 30 };
+    for _ in 0..nrand { shapes.push((rng.below(10) as usize, rng.below(7) as usize, rng.below(2) as u8, 0)); }
+    for _ in 0..(if thorough { 20 } else { 8 }) { shapes.push((1 + rng.below(4) as usize, 1 + rng.below(4) as usize, 1, if rng.chance(0.5) { 1 } else { -1 })); }
+    for (n, m, mode, extra) in shapes {
+        let id = ctx.next_id();
+        let mut cr = rng.fork();
+        let rng = &mut cr;
+        if !ctx.out.wanted(id) { continue; }
+        let x = lattice(rng, n, 2);
+        let bad = if extra != 0 { rng.below(m as u64) as usize } else { usize::MAX };
+        let mocks: Vec<MockReg> = (0..m).map(|j| MockReg { tag: (j + 1) as f64, mode, extra: if j == bad { extra } else { 0 } }).collect();
+        let members: Vec<Vec<f64>> = mocks.iter().map(|mk| { let y: Array1<f64> = mk.predict(&x); y.to_vec() }).collect();
+        let model: MultiTargetModel<Array2<f64>, f64> = mocks.iter().cloned().collect();
+        let res = guarded(AssertUnwindSafe(|| { let y: Array2<f64> = model.predict(&x); y }));
+        let (panicked, shape, rows) = match &res {
+            Ok(y) => (false, (y.nrows(), y.ncols()), rows_of(&y.view())),
+            Err(_) => (true, (0, 0), vec![]),
+        };
+        let coq = format!(
+            "CMT {} {} {} {} ({}, {}) {}",
+            cn(id), cn(n as u64), clist(&members, |v| cvec64(v)), cbool(panicked), cn(shape.0 as u64), cn(shape.1 as u64), cmat64(&rows)
+        );
+        let desc = format!(
+            "{{\"wrapper\": \"MultiTargetModel\", \"rows\": {}, \"members\": {}, \"member_mode\": {}, \"malformed_member\": {}, \"member_outputs\": {}, \"panicked\": {}, \"output\": {}}}",
+            n, m, mode, extra != 0, jrows(&members), panicked, jrows(&rows)
+        );
+        ctx.out.bump("coq_multi_target");
+        if extra != 0 { ctx.out.bump("coq_multi_target_malformed"); }
+        let key = if n >= 2 && m >= 2 { Some(fnv(desc.as_bytes())) } else { None };
+        let tags: Vec<&str> = if extra != 0 { vec!["wrapper_multi_target", "malformed_member"] } else { vec!["wrapper_multi_target"] };
+        ctx.out.case(id, &coq, &tags, &desc, key);
+    }
+    // metamorphic programme on wrappers whose members are row functions
+    for k in 0..(if thorough { 6 } else { 2 }) {
+        let m = 1 + k % 4;
+        let model: MultiTargetModel<Array2<f64>, f64> = (0..m).map(|j| MockReg { tag: (j + 1) as f64, mode: 0, extra: 0 }).collect();
+        let pool = lattice(rng, 14, 3);
+        let pred = mk_pred!(model, Array2<f64>, f64);
+        metamorph(ctx, rng, "multi_target_mock", &format!("{} row-function members", m), &pred, &pool, &Xl::exact());
+    }
+}
+
+fn multi_class_cases(ctx: &mut Ctx, rng: &mut Sm64, thorough: bool) {
+    let mut shapes: Vec<(usize, usize, u8, isize)> = Vec::new();
+    for n in 0..=4 { for m in 0..=4 { for mode in 0..3u8 { shapes.push((n, m, mode, 0)); } } }
+    let nrand = if thorough { 150 } else { 40 };
+    for _ in 0..nrand { shapes.push((rng.below(10) as usize, rng.below(7) as usize, rng.below(3) as u8, 0)); }
+    for _ in 0..(if thorough { 20 } else { 8 }) { shapes.push((1 + rng.below(4) as usize, 2 + rng.below(3) as usize, 1, if rng.chance(0.5) { 1 } else { -1 })); }
+    for (n, m, mode, extra) in shapes {
+        let id = ctx.next_id();
+        let mut cr = rng.fork();
+        let rng = &mut cr;
+        if !ctx.out.wanted(id) { continue; }
+        let x = lattice(rng, n, 2);
+        let bad = if extra != 0 { rng.below(m as u64) as usize } else { usize::MAX };
+        let dup_labels = rng.chance(0.15);
+        let labels: Vec<usize> = (0..m).map(|j| if dup_labels { 10 + j / 2 } else { 10 + ((j * 7) % 11) }).collect();
+        let mocks: Vec<MockPr> = (0..m).map(|j| MockPr { tag: ((j * 3) % 5) as f64, mode, extra: if j == bad { extra } else { 0 } }).collect();
+        let members: Vec<Vec<f64>> = mocks.iter().map(|mk| { let y: Array1<Pr> = mk.predict(&x); y.iter().map(|p| **p as f64).collect() }).collect();
+        let model: MultiClassModel<Array2<f64>, usize> = labels.iter().cloned().zip(mocks.iter().cloned()).collect();
+        let res = guarded(AssertUnwindSafe(|| { let y: Array1<usize> = model.predict(&x); y }));
+        let (panicked, outv) = match &res { Ok(y) => (false, y.to_vec()), Err(_) => (true, vec![]) };
+        let coq = format!(
+            "CMC {} {} 0%N {} {} {} {}",
+            cn(id), cn(n as u64), cvecn(&labels), clist(&members, |v| cvec64(v)), cbool(panicked), cvecn(&outv)
+        );
+        let desc = format!(
+            "{{\"wrapper\": \"MultiClassModel\", \"rows\": {}, \"labels\": {:?}, \"member_mode\": {}, \"malformed_member\": {}, \"member_probabilities\": {}, \"panicked\": {}, \"output\": {:?}}}",
+            n, labels, mode, extra != 0, jrows(&members), panicked, outv
+        );
+        ctx.out.bump("coq_multi_class");
+        // ties between the best members are what distinguishes > from >= and first from last
+        let ties = (0..n).filter(|&i| {
+            let pr: Vec<f64> = members.iter().filter(|v| v.len() > i).map(|v| v[i]).collect();
+            let mx = pr.iter().cloned().fold(f64::NEG_INFINITY, f64::max);
+            pr.iter().filter(|v| **v == mx).count() >= 2
+        }).count();
+        if ties > 0 { ctx.out.bump("coq_multi_class_with_ties"); }
+        let key = if n >= 1 && m >= 2 { Some(fnv(desc.as_bytes())) } else { None };
+        let tags: Vec<&str> = if extra != 0 { vec!["wrapper_multi_class", "malformed_member"] } else { vec!["wrapper_multi_class"] };
+        ctx.out.case(id, &coq, &tags, &desc, key);
+    }
+    for k in 0..(if thorough { 6 } else { 2 }) {
+        let m = 2 + k % 4;
+        let model: MultiClassModel<Array2<f64>, usize> = (0..m).map(|j| (20 + j, MockPr { tag: j as f64, mode: 0, extra: 0 })).collect();
+        let pool = lattice(rng, 14, 2);
+        let pred = mk_pred!(model, Array1<usize>, f64);
+        metamorph(ctx, rng, "multi_class_mock", &format!("{} row-function members", m), &pred, &pool, &Xl::exact());
+    }
+}
+
+// ---------------------------------------------------------------- Platt
+
+/// (bits of f_apb as f32, bits of exp(-|f_apb|) as f32): the libm value the Gallina model takes as input
+fn platt_aux64(x: f64, a: f64, b: f64) -> (u32, u32) {
+    let f = (a * x + b) as f32;
+    (f.to_bits(), (-f.abs()).exp().to_bits())
+}
+fn platt_aux32(x: f32, a: f32, b: f32) -> (u32, u32) {
+    let f = a * x + b;
+    (f.to_bits(), (-f.abs()).exp().to_bits())
+}
+fn platt_case(ctx: &mut Ctx, id: u64, is32: bool, a: f64, b: f64, pts: &[(f64, u32, u32, i64)], origin: &str) {
+    let coq = format!(
+        "CPL {} {} {} {} {}",
+        cn(id), cbool(is32), sf64(a), sf64(b),
+        clist(pts, |t| format!("({}, ({}, ({}, {})))", sf64(t.0), cz(t.1 as i64), cz(t.2 as i64), cz(t.3)))
+    );
+    let desc = format!(
+        "{{\"platt\": {}, \"f32_model\": {}, \"a\": {:e}, \"b\": {:e}, \"decision_values\": {:?}, \"probabilities\": {:?}}}",
+        jstr(origin), is32, a, b,
+        pts.iter().map(|t| format!("{:e}", t.0)).collect::<Vec<_>>(),
+        pts.iter().map(|t| if t.3 < 0 { "panic".to_string() } else { format!("{:e}", f32::from_bits(t.3 as u32)) }).collect::<Vec<_>>()
+    );
+    ctx.out.bump(&format!("coq_platt_{}", origin));
+    let key = Some(fnv(desc.as_bytes()));
+    ctx.out.case(id, &coq, &["wrapper_platt"], &desc, key);
+}
+
+fn platt_direct_cases(ctx: &mut Ctx, rng: &mut Sm64, thorough: bool) {
+    let n = if thorough { 200 } else { 50 };
+    let special = [0.0, -0.0, 1.0, -1.0, 0.5, -2.0, 3.75, 1.0e-3, -1.0e-3];
+    for k in 0..n {
+        let id = ctx.next_id();
+        let mut cr = rng.fork();
+        let rng = &mut cr;
+        if !ctx.out.wanted(id) { continue; }
+        let is32 = k % 3 == 2;
+        let mut a = if rng.chance(0.5) { *rng.pick(&special) } else { rng.gauss() * 2.0 };
+        let mut b = if rng.chance(0.5) { *rng.pick(&special) } else { rng.gauss() * 1.5 };
+        if is32 { a = a as f32 as f64; b = b as f32 as f64; }
+        let mut xs: Vec<f64> = vec![0.0, -0.0, 1.0, -1.0, 1.0e-8, -1.0e-8, 12.5, -12.5, 50.0, -50.0, 200.0, -200.0, 1.0e10, -1.0e10];
+        if !is32 { xs.push(1.0e300); xs.push(-1.0e300); xs.push(1.0e-300); }
+        for _ in 0..8 { xs.push(rng.gauss() * 4.0); }
+        for _ in 0..4 { xs.push(rng.range(-8, 8) as f64 * 0.25); }
+        if a != 0.0 { xs.push(-b / a); }    // decision value (close to) zero
+        let mut pts = Vec::new();
+        for x in xs {
+            let x = if is32 { x as f32 as f64 } else { x };
+            let (fb, eb) = if is32 { platt_aux32(x as f32, a as f32, b as f32) } else { platt_aux64(x, a, b) };
+            let r = if is32 { guarded(move || *platt_predict(x as f32, a as f32, b as f32)) } else { guarded(move || *platt_predict(x, a, b)) };
+            let pb = match r { Ok(p) => p.to_bits() as i64, Err(_) => -1 };
+            pts.push((x, fb, eb, pb));
+        }
+        platt_case(ctx, id, is32, a, b, &pts, "direct");
+    }
+}
+
+/// a and b of a fitted Platt model (private fields, no accessor): read from the derived Debug rendering
+fn platt_coeffs(dbg: &str) -> Option<(f64, f64)> {
+    let r = dbg.strip_prefix("Platt { a: ")?;
+    let (a, r) = r.split_once(", b: ")?;
+    let (b, _) = r.split_once(", obj: ")?;
+    Some((a.parse().ok()?, b.parse().ok()?))
+}
+
+/// Platt::predict_inplace against platt_predict of the inner model's predictions, then the Coq case
+fn platt_wrapper_check<O>(ctx: &mut Ctx, rng: &mut Sm64, name: &str, inner: O, x: &Array2<f64>, y: &Array1<bool>, pool: &Array2<f64>)
+where
+    O: PredictInplace<Array2<f64>, Array1<f64>> + std::fmt::Debug + Clone,
+{
+    let ds = DatasetBase::new(x.clone(), y.clone());
+    let fitted = match guarded(AssertUnwindSafe(|| Platt::<f64, O>::params().fit_with(inner.clone(), &ds))) {
+        Ok(Ok(m)) => m,
+        Ok(Err(e)) => { no_model(ctx, name, &format!("{}", e)); return; }
+        Err(e) => { no_model(ctx, name, &e); return; }
+    };
+    let (a, b) = match platt_coeffs(&format!("{:?}", fitted)) {
+        Some(ab) => ab,
+        None => panic!("cannot read a, b from the Debug rendering of Platt: {:?}", fitted),
+    };
+    let id = ctx.next_id();
+    if ctx.out.wanted(id) {
+        let dec: Array1<f64> = inner.predict(pool);
+        let res = guarded(AssertUnwindSafe(|| { let p: Array1<Pr> = fitted.predict(pool); p }));
+        let mut pts = Vec::new();
+        for (i, v) in dec.iter().enumerate() {
+            let (fb, eb) = platt_aux64(*v, a, b);
+            let pb = match &res { Ok(p) if p.len() == dec.len() => p[i].to_bits() as i64, _ => -1 };
+            pts.push((*v, fb, eb, pb));
+        }
+        platt_case(ctx, id, false, a, b, &pts, name);
+    }
+    let pred = mk_pred!(fitted, Array1<Pr>, f64);
+    metamorph(ctx, rng, name, &format!("a={:e} b={:e}", a, b), &pred, pool, &Xl::real(a.abs() + b.abs() + 1.0));
+}
+
+fn platt_mock_cases(ctx: &mut Ctx, rng: &mut Sm64, thorough: bool) {
+    for k in 0..(if thorough { 10 } else { 3 }) {
+        let n = 20 + rng.below(20) as usize;
+        let x = lattice(rng, n, 3);
+        let inner = MockReg { tag: 0.0, mode: 0, extra: 0 };
+        let dec: Array1<f64> = inner.predict(&x);
+        // labels correlated with the decision value, with some noise
+        let y: Array1<bool> = dec.iter().map(|v| (*v + 3.0 * rng.gauss() > 0.0) ^ (k % 2 == 1)).collect();
+        let pool = lattice(rng, 16, 3);
+        platt_wrapper_check(ctx, rng, "platt_mock", inner, &x, &y, &pool);
+    }
+}
+// ================================================================================================
+// C03 harness, part 3: the predictor types of the workspace.
+use linfa_bayes::{GaussianNb, MultinomialNb};
+use linfa_clustering::{GaussianMixtureModel, KMeans, KMeansInit};
+use linfa_elasticnet::{ElasticNet, MultiTaskElasticNet};
+use linfa_ftrl::Ftrl;
+use linfa_linear::{IsotonicRegression, LinearRegression, Link, TweedieRegressor};
+use linfa_logistic::{LogisticRegression, MultiLogisticRegression};
+use linfa_nn::distance::L2Dist;
+use linfa_pls::PlsRegression;
+use linfa_reduction::Pca;
+use linfa_svm::Svm;
+use linfa_trees::{DecisionTree, TreeNode};
+use rand::SeedableRng;
+use std::convert::TryInto;
+use rand_xoshiro::Xoshiro256Plus;
+
+/// ndarray's unrolled_dot (contiguous operands), transliterated
+fn udot(xs: &[f64], ys: &[f64]) -> f64 {
+    let mut p = [0.0f64; 8];
+    let mut i = 0;
+    while xs.len() - i >= 8 {
+        for l in 0..8 { p[l] = p[l] + xs[i + l] * ys[i + l]; }
+        i += 8;
+    }
+    let mut sum = 0.0;
+    sum = sum + (p[0] + p[4]);
+    sum = sum + (p[1] + p[5]);
+    sum = sum + (p[2] + p[6]);
+    sum = sum + (p[3] + p[7]);
+    while i < xs.len() { sum = sum + xs[i] * ys[i]; i += 1; }
+    sum
+}
+fn maxabs(v: &[f64]) -> f64 { v.iter().fold(0.0, |m, x| m.max(x.abs())) }
+
+fn ext_case(ctx: &mut Ctx, model: &str, ok: bool, what: &str, detail: &str) {
+    let id = ctx.next_id();
+    if !ctx.out.wanted(id) { return; }
+    let code = if ok { 0 } else { 512 };
+    let desc = format!("{{\"predictor\": {}, \"rust_transliteration\": {}, \"detail\": {}}}", jstr(model), jstr(what), jstr(detail));
+    ctx.out.bump(&format!("coq_ext_{}", model));
+    let tag = format!("predictor_{}", model);
+    ctx.out.case(id, &format!("CEXT {} {}", cn(id), cn(code)), &[&tag, "rust_transliteration"], &desc, Some(fnv(desc.as_bytes())));
+}
+
+/// single-sample calling forms (one-dimensional records) against the batch prediction
+fn row_form_check(ctx: &mut Ctx, model: &str, bad: Option<usize>, pool: &Array2<f64>) {
+    let id = ctx.next_id();
+    if !ctx.out.wanted(id) { return; }
+    let desc = format!("{{\"predictor\": {}, \"check\": \"predict(one-dimensional sample) equals the batch prediction of that row\", \"rows\": {}, \"first_differing_row\": {}}}",
+        jstr(model), pool.nrows(), match bad { Some(i) => format!("{:?}", pool.row(i).to_vec()), None => "null".into() });
+    ctx.out.bump(&format!("rowform_{}", model));
+    ctx.out.rust_eval(&desc, Some(fnv(desc.as_bytes()) ^ id));
+    if let Some(i) = bad {
+        let tag = format!("predictor_{}", model);
+        ctx.out.rust_fail(id, 1, &[&tag, "single_sample_form"], &format!("predict on the single sample {:?} differs from its prediction inside the batch", pool.row(i).to_vec()), &desc);
+    }
+}
+
+fn lin_case(ctx: &mut Ctx, model: &str, kind: u64, w: &[f64], b: f64, x: &Array2<f64>, out: &[f64], labs: &[bool]) {
+    let id = ctx.next_id();
+    if !ctx.out.wanted(id) { return; }
+    let contig = x.nrows() == 0 || x.row(0).as_slice().is_some();
+    let rows = rows_of(&x.view());
+    let coq = format!(
+        "CLIN {} {} {} {} {} {} {} {}",
+        cn(id), cn(kind), cbool(contig), cvec64(w), sf64(b), cmat64(&rows), cvec64(out), clist(labs, |l| cbool(*l).to_string())
+    );
+    let desc = format!(
+        "{{\"predictor\": {}, \"model\": \"x.dot(w)+b\", \"kind\": {}, \"contiguous_rows\": {}, \"w\": {:?}, \"b\": {:e}, \"rows\": {}, \"features\": {}}}",
+        jstr(model), kind, contig, w, b, x.nrows(), x.ncols()
+    );
+    ctx.out.bump(&format!("coq_lin_{}", model));
+    if !contig { ctx.out.bump("coq_lin_strided_rows"); }
+    if x.ncols() >= 8 { ctx.out.bump("coq_lin_ge8_features"); }
+    let tag = format!("predictor_{}", model);
+    ctx.out.case(id, &coq, &[&tag], &desc, Some(fnv(desc.as_bytes())));
+}
+
+fn aff_case(ctx: &mut Ctx, model: &str, kind: u64, mean: &[f64], scale: &[f64], w: &Array2<f64>, b: &[f64], x: &Array2<f64>, out: &[Vec<f64>], labs: &[usize]) {
+    let id = ctx.next_id();
+    if !ctx.out.wanted(id) { return; }
+    let coq = format!(
+        "CAFF {} {} {} {} {} {} {} {} {}",
+        cn(id), cn(kind), cvec64(mean), cvec64(scale), cmat64(&rows_of(&w.view())), cvec64(b), cmat64(&rows_of(&x.view())), cmat64(out), cvecn(labs)
+    );
+    let desc = format!(
+        "{{\"predictor\": {}, \"model\": \"((X - mean) / scale) W + b over Q\", \"kind\": {}, \"rows\": {}, \"features\": {}, \"outputs\": {}}}",
+        jstr(model), kind, x.nrows(), x.ncols(), w.ncols()
+    );
+    ctx.out.bump(&format!("coq_aff_{}", model));
+    let tag = format!("predictor_{}", model);
+    ctx.out.case(id, &coq, &[&tag], &desc, Some(fnv(desc.as_bytes())));
+}
+
+fn pick_dim(rng: &mut Sm64, inst: usize, maxp: usize) -> usize {
+    let c: Vec<usize> = DIMS.iter().cloned().filter(|d| *d <= maxp).collect();
+    if inst < c.len() { c[c.len() - 1 - inst] } else { *rng.pick(&c) }
+}
+
+// ---------------------------------------------------------------- k-means
+fn kmeans_models(ctx: &mut Ctx, rng: &mut Sm64, ninst: usize) {
+    for inst in 0..ninst + 2 {
+        let (x, k, init): (Vec<Vec<f64>>, usize, Option<Vec<Vec<f64>>>) = if inst == 0 {
+            // points at -1 and +1: centroids exactly -1 / +1, the origin is an exact tie
+            let p = 2;
+            let mut x = Vec::new();
+            for i in 0..10 { x.push(vec![if i % 2 == 0 { -1.0 } else { 1.0 }; p]); }
+            (x, 2, Some(vec![vec![-1.0; p], vec![1.0; p]]))
+        } else if inst == 1 {
+            // a duplicated centroid: every query near +1 ties between centroids 1 and 2
+            let mut x = Vec::new();
+            for i in 0..12 { x.push(vec![if i % 2 == 0 { -1.0 } else { 1.0 }, 0.5]); }
+            (x, 3, Some(vec![vec![-1.0, 0.5], vec![1.0, 0.5], vec![1.0, 0.5]]))
+        } else {
+            let p = pick_dim(rng, inst - 2, 9);
+            let k = 2 + rng.below(3) as usize;
+            let n = 24 + rng.below(12) as usize;
+            let (x, _) = blobs(rng, n, p, k, (inst % 2) as u64);
+            (x, k, None)
+        };
+        let xa: Array2<f64> = arr(&x);
+        let ds = DatasetBase::from(xa.clone());
+        let seed = rng.below(1000);
+        let im = match &init { Some(c) => KMeansInit::Precomputed(arr(c)), None => KMeansInit::KMeansPlusPlus };
+        let fit = guarded(AssertUnwindSafe(|| {
+            KMeans::params_with(k, Xoshiro256Plus::seed_from_u64(seed), L2Dist).max_n_iterations(30).n_runs(1).init_method(im).fit(&ds)
+        }));
+        let model = match fit { Ok(Ok(m)) => m, _ => { no_model(ctx, "kmeans", "fit failed"); continue; } };
+        let cents = rows_of(&model.centroids().view());
+        let mut extra: Vec<Vec<f64>> = cents.clone();
+        for i in 0..cents.len() { for j in i + 1..cents.len() {
+            extra.push(cents[i].iter().zip(&cents[j]).map(|(a, b)| (a + b) / 2.0).collect());
+        } }
+        let pool: Array2<f64> = arr(&pool_rows(rng, &x, &extra));
+        // Coq: arg-min scan bit for bit
+        let id = ctx.next_id();
+        if ctx.out.wanted(id) {
+            let pr: Array1<usize> = model.predict(&pool);
+            let coq = format!("CKM {} {} {} {}", cn(id), cmat64(&cents), cmat64(&rows_of(&pool.view())), cvecn(&pr.to_vec()));
+            let desc = format!("{{\"predictor\": \"kmeans\", \"centroids\": {}, \"queries\": {}}}", jrows(&cents), pool.nrows());
+            ctx.out.bump("coq_kmeans");
+            ctx.out.case(id, &coq, &["predictor_kmeans"], &desc, Some(fnv(desc.as_bytes())));
+        }
+        {
+            let pr: Array1<usize> = model.predict(&pool);
+            let bad = (0..pool.nrows()).find(|&i| {
+                let owned: usize = model.predict(&pool.row(i).to_owned());
+                let v = pool.row(i);
+                let view: usize = model.predict(&v);
+                owned != pr[i] || view != pr[i]
+            });
+            row_form_check(ctx, "kmeans", bad, &pool);
+        }
+        let pred = mk_pred!(model, Array1<usize>, f64, view);
+        metamorph(ctx, rng, "kmeans", &format!("k={} inst={}", k, inst), &pred, &pool, &Xl::exact());
+        if inst == 2 {
+            // the same data as f32
+            let xa32: Array2<f32> = arr(&x);
+            let ds32 = DatasetBase::from(xa32);
+            if let Ok(Ok(m32)) = guarded(AssertUnwindSafe(|| KMeans::params_with(k, Xoshiro256Plus::seed_from_u64(seed), L2Dist).max_n_iterations(30).fit(&ds32))) {
+                let pool32: Array2<f32> = pool.mapv(|v| v as f32);
+                let pred = mk_pred!(m32, Array1<usize>, f32, view);
+                metamorph(ctx, rng, "kmeans_f32", "f32", &pred, &pool32, &Xl::exact());
+            }
+        }
+    }
+}
+
+// ---------------------------------------------------------------- Gaussian mixture
+fn gmm_models(ctx: &mut Ctx, rng: &mut Sm64, ninst: usize) {
+    for inst in 0..ninst {
+        let p = pick_dim(rng, inst + 2, 5);
+        let k = 2 + rng.below(2) as usize;
+        let n = 40 + rng.below(20) as usize;
+        let (x, _) = blobs(rng, n, p, k, 0);
+        let ds = DatasetBase::from(arr::<f64>(&x));
+        let seed = rng.below(1000);
+        let fit = guarded(AssertUnwindSafe(|| {
+            GaussianMixtureModel::params(k).with_rng(Xoshiro256Plus::seed_from_u64(seed)).n_runs(2).tolerance(1e-4).fit(&ds)
+        }));
+        let model = match fit { Ok(Ok(m)) => m, _ => { no_model(ctx, "gmm", "fit failed"); continue; } };
+        let pool: Array2<f64> = arr(&pool_rows(rng, &x, &rows_of(&model.means().view())));
+        let near = |row: &[f64]| {
+            let r = Array2::from_shape_vec((1, row.len()), row.to_vec()).unwrap();
+            let mut pr = model.predict_proba(&r).row(0).to_vec();
+            pr.sort_by(|a, b| b.partial_cmp(a).unwrap_or(std::cmp::Ordering::Equal));
+            pr.len() < 2 || !((pr[0] - pr[1]).abs() > 1e-9)
+        };
+        let xl = Xl { exact: false, scale: 1.0, near: Some(Box::new(near)), expo: false };
+        {
+            // the label is the first maximum of the row of responsibilities that predict_proba publishes
+            let pr: Array1<usize> = model.predict(&pool);
+            let proba = model.predict_proba(&pool);
+            let bad = (0..pool.nrows()).find(|&i| {
+                let r = proba.row(i);
+                let mut best = 0;
+                for c in 1..r.len() { if r[c] > r[best] { best = c; } }
+                best != pr[i]
+            });
+            ext_case(ctx, "gmm", bad.is_none(), "predict(x) = first arg-max of predict_proba(x)", &format!("first differing row {:?}", bad.map(|i| pool.row(i).to_vec())));
+        }
+        let pred = mk_pred!(model, Array1<usize>, f64, view);
+        metamorph(ctx, rng, "gmm", &format!("k={} p={}", k, p), &pred, &pool, &xl);
+    }
+}
+
+// ---------------------------------------------------------------- OLS, elastic net, GLM
+fn linear_models(ctx: &mut Ctx, rng: &mut Sm64, ninst: usize) {
+    for inst in 0..ninst {
+        let p = pick_dim(rng, inst, 17);
+        let n = 3 * p + 8 + rng.below(10) as usize;
+        let (x, y) = regdata(rng, n, p, 0.3);
+        let xa: Array2<f64> = arr(&x);
+        let ya = Array1::from(y.clone());
+        let ds = DatasetBase::new(xa.clone(), ya.clone());
+        let pool: Array2<f64> = arr(&pool_rows(rng, &x, &[]));
+        let poolf = fortran(&pool);
+
+        // OLS
+        match guarded(AssertUnwindSafe(|| LinearRegression::new().with_intercept(inst % 3 != 2).fit(&ds))) {
+            Ok(Ok(m)) => {
+                let w = m.params().to_vec();
+                let b = m.intercept();
+                let o: Array1<f64> = m.predict(&pool);
+                lin_case(ctx, "ols", 0, &w, b, &pool, &o.to_vec(), &[]);
+                let o: Array1<f64> = m.predict(&poolf);
+                lin_case(ctx, "ols", 0, &w, b, &poolf, &o.to_vec(), &[]);
+                let pred = mk_pred!(m, Array1<f64>, f64, view);
+                metamorph(ctx, rng, "ols", &format!("p={}", p), &pred, &pool, &Xl::real(maxabs(&w) + b.abs()));
+            }
+            _ => no_model(ctx, "ols", "fit failed"),
+        }
+        // elastic net
+        match guarded(AssertUnwindSafe(|| ElasticNet::params().penalty(0.05 + 0.1 * (inst % 3) as f64).l1_ratio(0.5).with_intercept(inst % 4 != 3).fit(&ds))) {
+            Ok(Ok(m)) => {
+                let w = m.hyperplane().to_vec();
+                let b = m.intercept();
+                let o: Array1<f64> = m.predict(&pool);
+                lin_case(ctx, "elasticnet", 0, &w, b, &pool, &o.to_vec(), &[]);
+                let o: Array1<f64> = m.predict(&poolf);
+                lin_case(ctx, "elasticnet", 0, &w, b, &poolf, &o.to_vec(), &[]);
+                let pred = mk_pred!(m, Array1<f64>, f64, view);
+                metamorph(ctx, rng, "elasticnet", &format!("p={}", p), &pred, &pool, &Xl::real(maxabs(&w) + b.abs()));
+            }
+            _ => no_model(ctx, "elasticnet", "fit failed"),
+        }
+        // multi-task elastic net
+        let t = 2 + inst % 3;
+        let y2 = Array2::from_shape_fn((n, t), |(i, j)| y[i] * (j as f64 + 1.0) - x[i][0] * j as f64);
+        let ds2 = DatasetBase::new(xa.clone(), y2);
+        match guarded(AssertUnwindSafe(|| MultiTaskElasticNet::params().penalty(0.1).l1_ratio(0.4).fit(&ds2))) {
+            Ok(Ok(m)) => {
+                let o: Array2<f64> = m.predict(&pool);
+                aff_case(ctx, "multitask_elasticnet", 0, &[], &[], m.hyperplane(), &m.intercept().to_vec(), &pool, &rows_of(&o.view()), &[]);
+                let sc = maxabs(m.hyperplane().as_slice().unwrap_or(&[1.0])) + maxabs(&m.intercept().to_vec());
+                let pred = mk_pred!(m, Array2<f64>, f64, view);
+                metamorph(ctx, rng, "multitask_elasticnet", &format!("p={} tasks={}", p, t), &pred, &pool, &Xl::real(sc));
+            }
+            _ => no_model(ctx, "multitask_elasticnet", "fit failed"),
+        }
+        // Tweedie GLM: identity link (normal) and log link (Poisson / gamma) on positive targets
+        // mild scales: the line search of the GLM solver does not terminate once it meets a NaN deviance
+        let ymax = maxabs(&y).max(1.0);
+        let ypos = ya.mapv(|v| (1.5 * v / ymax).exp());
+        let dsp = DatasetBase::new(xa.mapv(|v| 0.25 * v), ypos);
+        for (power, link) in [(0.0, Link::Identity), (1.0, Link::Log), (2.0, Link::Log)] {
+            if power == 2.0 && inst % 2 == 0 { continue; }
+            let name = if link == Link::Identity { "glm_identity" } else { "glm_log" };
+            let r = if link == Link::Identity {
+                guarded(AssertUnwindSafe(|| TweedieRegressor::params().power(power).link(link).alpha(0.01).max_iter(200).fit(&ds)))
+            } else {
+                guarded(AssertUnwindSafe(|| TweedieRegressor::params().power(power).link(link).alpha(0.1).max_iter(100).fit(&dsp)))
+            };
+            match r {
+                Ok(Ok(m)) => {
+                    let w = m.coef.to_vec();
+                    let b = m.intercept;
+                    let o: Array1<f64> = m.predict(&pool);
+                    if link == Link::Identity {
+                        lin_case(ctx, name, 0, &w, b, &pool, &o.to_vec(), &[]);
+                        let o: Array1<f64> = m.predict(&poolf);
+                        lin_case(ctx, name, 0, &w, b, &poolf, &o.to_vec(), &[]);
+                    } else {
+                        let bad = pool.rows().into_iter().zip(o.iter()).position(|(r, v)| (udot(r.as_slice().unwrap(), &w) * 1.0 + b).exp().to_bits() != v.to_bits());
+                        ext_case(ctx, name, bad.is_none(), "predict(x) = exp(unrolled_dot(x, coef) + intercept)", &format!("first differing row {:?} coef {:?} intercept {:e}", bad.map(|i| pool.row(i).to_vec()), w, b));
+                    }
+                    let mut xl = Xl::real(maxabs(&w) + b.abs());
+                    xl.expo = link != Link::Identity;
+                    let pred = mk_pred!(m, Array1<f64>, f64, view);
+                    metamorph(ctx, rng, name, &format!("p={} power={}", p, power), &pred, &pool, &xl);
+                }
+                _ => no_model(ctx, name, "fit failed"),
+            }
+        }
+        if inst == 1 {
+            // f32 elastic net
+            let ds32 = DatasetBase::new(xa.mapv(|v| v as f32), ya.mapv(|v| v as f32));
+            if let Ok(Ok(m)) = guarded(AssertUnwindSafe(|| ElasticNet::<f32>::params().penalty(0.1).l1_ratio(0.5).fit(&ds32))) {
+                let pool32 = pool.mapv(|v| v as f32);
+                let sc = m.hyperplane().iter().fold(0.0f64, |a, v| a.max(v.abs() as f64)) + m.intercept().abs() as f64;
+                let pred = mk_pred!(m, Array1<f32>, f32, view);
+                metamorph(ctx, rng, "elasticnet_f32", &format!("p={}", p), &pred, &pool32, &Xl::real(sc));
+            }
+        }
+    }
+}
+
+// ---------------------------------------------------------------- isotonic regression
+/// reader of bincode images (fitted parameters that are private and have no accessor);
+/// ndarray's serde format of an array: version u8 = 1, dim (u64 per axis), length u64, data
+struct Rd<'b> { b: &'b [u8], pos: usize }
+impl<'b> Rd<'b> {
+    fn u8(&mut self) -> Option<u8> { let v = *self.b.get(self.pos)?; self.pos += 1; Some(v) }
+    fn u64(&mut self) -> Option<u64> { let v = u64::from_le_bytes(self.b.get(self.pos..self.pos + 8)?.try_into().ok()?); self.pos += 8; Some(v) }
+    fn f64(&mut self) -> Option<f64> { Some(f64::from_bits(self.u64()?)) }
+    fn arr1(&mut self) -> Option<Vec<f64>> {
+        if self.u8()? != 1 { return None; }
+        let dim = self.u64()? as usize;
+        let len = self.u64()? as usize;
+        if dim != len || len > 1 << 24 { return None; }
+        (0..len).map(|_| self.f64()).collect()
+    }
+    fn arr2(&mut self) -> Option<Array2<f64>> {
+        if self.u8()? != 1 { return None; }
+        let (r, c) = (self.u64()? as usize, self.u64()? as usize);
+        let len = self.u64()? as usize;
+        if r.checked_mul(c)? != len || len > 1 << 24 { return None; }
+        let v: Option<Vec<f64>> = (0..len).map(|_| self.f64()).collect();
+        Array2::from_shape_vec((r, c), v?).ok()
+    }
+    fn done(&self) -> bool { self.pos == self.b.len() }
+}
+/// regressor / response of a fitted isotonic model
+fn iso_knots(bytes: &[u8]) -> Option<(Vec<f64>, Vec<f64>)> {
+    let mut r = Rd { b: bytes, pos: 0 };
+    let a = r.arr1()?;
+    let b = r.arr1()?;
+    if r.done() { Some((a, b)) } else { None }
+}
+
+fn isotonic_models(ctx: &mut Ctx, rng: &mut Sm64, ninst: usize) {
+    for inst in 0..ninst {
+        let n = 6 + rng.below(25) as usize;
+        let dir = if inst % 3 == 2 { -1.0 } else { 1.0 };
+        let lattice = inst % 4 == 1;
+        let xs: Vec<f64> = (0..n).map(|_| if lattice { rng.range(-6, 6) as f64 } else { 4.0 * rng.gauss() }).collect();
+        let ys: Vec<f64> = xs.iter().map(|v| dir * v + if lattice { rng.range(-3, 3) as f64 } else { 2.0 * rng.gauss() }).collect();
+        let xa = Array2::from_shape_vec((n, 1), xs.clone()).unwrap();
+        let ds = DatasetBase::new(xa.clone(), Array1::from(ys));
+        let model = match guarded(AssertUnwindSafe(|| IsotonicRegression::new().fit(&ds))) { Ok(Ok(m)) => m, _ => { no_model(ctx, "isotonic", "fit failed"); continue; } };
+        let (reg, resp) = match bincode::serialize(&model).ok().and_then(|b| iso_knots(&b)) {
+            Some(k) => k,
+            None => panic!("cannot read the knots of FittedIsotonicRegression from its bincode image"),
+        };
+        // queries: every knot, just below / above, midpoints, far outside, training points
+        let mut q: Vec<Vec<f64>> = Vec::new();
+        for (i, k) in reg.iter().enumerate() {
+            q.push(vec![*k]);
+            q.push(vec![next_up(*k)]);
+            q.push(vec![next_down(*k)]);
+            if i + 1 < reg.len() { q.push(vec![(k + reg[i + 1]) / 2.0]); }
+        }
+        q.truncate(40);
+        q.push(vec![-1.0e6]);
+        q.push(vec![1.0e6]);
+        q.push(vec![0.0]);
+        for _ in 0..6 { q.push(vec![xs[rng.below(n as u64) as usize]]); q.push(vec![5.0 * rng.gauss()]); }
+        let pool: Array2<f64> = arr(&q);
+        let id = ctx.next_id();
+        if ctx.out.wanted(id) {
+            let o: Array1<f64> = model.predict(&pool);
+            let coq = format!("CISO {} {} {} {} {}", cn(id), cvec64(&reg), cvec64(&resp), cvec64(&pool.column(0).to_vec()), cvec64(&o.to_vec()));
+            let desc = format!("{{\"predictor\": \"isotonic\", \"regressor\": {:?}, \"response\": {:?}, \"queries\": {}}}", reg, resp, pool.nrows());
+            ctx.out.bump("coq_isotonic");
+            ctx.out.case(id, &coq, &["predictor_isotonic"], &desc, Some(fnv(desc.as_bytes())));
+        }
+        let pred = mk_pred!(model, Array1<f64>, f64, view);
+        metamorph(ctx, rng, "isotonic", &format!("knots={}", reg.len()), &pred, &pool, &Xl::exact());
+    }
+}
+
+// ---------------------------------------------------------------- logistic regression
+fn logistic_models(ctx: &mut Ctx, rng: &mut Sm64, ninst: usize) {
+    for inst in 0..ninst {
+        let p = pick_dim(rng, inst, 9);
+        let n = 40 + rng.below(20) as usize;
+        // binary, overlapping classes (separable data makes L-BFGS fail: "no model")
+        let (x, y) = blobs(rng, n, p, 2, 0);
+        let x: Vec<Vec<f64>> = x.iter().map(|r| r.iter().map(|v| 0.4 * v + 1.5 * rng.gauss()).collect()).collect();
+        let xa: Array2<f64> = arr(&x);
+        let labels: Array1<usize> = y.iter().map(|c| if *c == 0 { 3 } else { 8 }).collect();
+        let ds = DatasetBase::new(xa.clone(), labels);
+        let pool: Array2<f64> = arr(&pool_rows(rng, &x, &[]));
+        match guarded(AssertUnwindSafe(|| LogisticRegression::default().alpha(0.5).max_iterations(200).fit(&ds))) {
+            Ok(Ok(m)) => {
+                let w = m.params().to_vec();
+                let b = m.intercept();
+                let pos = m.labels().pos.class;
+                let neg = m.labels().neg.class;
+                let o: Array1<usize> = m.predict(&pool);
+                let labs: Vec<bool> = o.iter().map(|l| *l == pos).collect();
+                lin_case(ctx, "logistic", 1, &w, b, &pool, &[], &labs);
+                let only_two = o.iter().all(|l| *l == pos || *l == neg);
+                // decision threshold placed exactly on one row's probability: the row must be positive
+                let probs = m.predict_probabilities(&pool);
+                let r = rng.below(pool.nrows() as u64) as usize;
+                let thr = probs[r];
+                let m2 = m.clone().set_threshold(thr);
+                let o2: Array1<usize> = m2.predict(&pool);
+                let bad = (0..pool.nrows()).find(|&i| o2[i] != if probs[i] >= thr { pos } else { neg });
+                ext_case(ctx, "logistic", only_two && bad.is_none(), "label = pos iff predict_probabilities(x) >= threshold (threshold set to one row's probability)",
+                    &format!("threshold {:e} first differing row {:?}", thr, bad.map(|i| pool.row(i).to_vec())));
+                let sc = maxabs(&w) + b.abs();
+                for (mm, thr, nm) in [(&m, 0.5, "logistic"), (&m2, thr, "logistic_threshold_tie")] {
+                    let near = move |row: &[f64]| {
+                        let r = Array2::from_shape_vec((1, row.len()), row.to_vec()).unwrap();
+                        !((mm.predict_probabilities(&r)[0] - thr).abs() > 1e-9)
+                    };
+                    let xl = Xl { exact: false, scale: sc, near: Some(Box::new(near)), expo: false };
+                    let pred = mk_pred!(*mm, Array1<usize>, f64, view);
+                    metamorph(ctx, rng, nm, &format!("p={}", p), &pred, &pool, &xl);
+                }
+            }
+            _ => no_model(ctx, "logistic", "fit failed"),
+        }
+        // multinomial
+        let k = 3 + inst % 2;
+        let (x3, y3) = blobs(rng, n + 10, p, k, 0);
+        let x3: Vec<Vec<f64>> = x3.iter().map(|r| r.iter().map(|v| 0.4 * v + 1.2 * rng.gauss()).collect()).collect();
+        let ds3 = DatasetBase::new(arr::<f64>(&x3), Array1::from(y3.iter().map(|c| 10 * c + 1).collect::<Vec<usize>>()));
+        let pool3: Array2<f64> = arr(&pool_rows(rng, &x3, &[]));
+        match guarded(AssertUnwindSafe(|| MultiLogisticRegression::default().alpha(0.5).max_iterations(200).fit(&ds3))) {
+            Ok(Ok(m)) => {
+                let o: Array1<usize> = m.predict(&pool3);
+                let classes = m.classes().to_vec();
+                let idx: Vec<usize> = o.iter().map(|l| classes.iter().position(|c| c == l).unwrap_or(usize::MAX >> 8)).collect();
+                aff_case(ctx, "multi_logistic", 1, &[], &[], m.params(), &m.intercept().to_vec(), &pool3, &[], &idx);
+                let wv = m.params().clone();
+                let bv = m.intercept().clone();
+                let sc = wv.iter().fold(0.0f64, |a, v| a.max(v.abs())) + maxabs(&bv.to_vec());
+                let near = move |row: &[f64]| {
+                    let mut z: Vec<f64> = (0..wv.ncols()).map(|c| row.iter().enumerate().map(|(j, v)| v * wv[(j, c)]).sum::<f64>() + bv[c]).collect();
+                    z.sort_by(|a, b| b.partial_cmp(a).unwrap_or(std::cmp::Ordering::Equal));
+                    !((z[0] - z[1]).abs() > 1e-9 * (1.0 + z[0].abs()))
+                };
+                let xl = Xl { exact: false, scale: sc, near: Some(Box::new(near)), expo: false };
+                let pred = mk_pred!(m, Array1<usize>, f64, view);
+                metamorph(ctx, rng, "multi_logistic", &format!("p={} classes={}", p, k), &pred, &pool3, &xl);
+            }
+            _ => no_model(ctx, "multi_logistic", "fit failed"),
+        }
+    }
+}
+// ================================================================================================
+// C03 harness, part 4: SVM, trees, naive Bayes, FTRL, PCA, PLS, wrappers over fitted members.
+
+fn after<'s>(s: &'s str, key: &str) -> Option<&'s str> { s.find(key).map(|i| &s[i + key.len()..]) }
+/// Platt coefficients of an SVM fitted for probabilities (private field): from the Debug rendering
+fn svm_platt_coeffs(dbg: &str) -> Option<(f64, f64)> {
+    let r = after(dbg, "probability_coeffs: Some((")?;
+    let (a, r) = r.split_once(", ")?;
+    let (b, _) = r.split_once("))")?;
+    Some((a.parse().ok()?, b.parse().ok()?))
+}
+
+#[derive(Clone, Copy, Debug)]
+enum Kern { Lin, Gauss(f64), Poly(f64, f64) }
+
+macro_rules! with_kernel {
+    ($p:expr, $k:expr) => {
+        match $k { Kern::Lin => $p.linear_kernel(), Kern::Gauss(e) => $p.gaussian_kernel(e), Kern::Poly(c, d) => $p.polynomial_kernel(c, d) }
+    };
+}
+
+fn svm_models(ctx: &mut Ctx, rng: &mut Sm64, ninst: usize) {
+    let kerns = [Kern::Lin, Kern::Gauss(8.0), Kern::Poly(1.0, 2.0), Kern::Gauss(30.0)];
+    for inst in 0..ninst {
+        let p = pick_dim(rng, inst, 9);
+        let kern = kerns[inst % kerns.len()];
+        let n = 36 + rng.below(16) as usize;
+        let (x, y) = blobs(rng, n, p, 2, 0);
+        let x: Vec<Vec<f64>> = x.iter().map(|r| r.iter().map(|v| 0.5 * v + 0.8 * rng.gauss()).collect()).collect();
+        let xa: Array2<f64> = arr(&x);
+        let yb: Array1<bool> = y.iter().map(|c| *c == 1).collect();
+        let ds = DatasetBase::new(xa.clone(), yb.clone());
+        let pool: Array2<f64> = arr(&pool_rows(rng, &x, &[]));
+        let inst_name = format!("p={} kernel={:?}", p, kern);
+
+        // classification (bool)
+        match guarded(AssertUnwindSafe(|| with_kernel!(Svm::<f64, bool>::params().pos_neg_weights(1.0, 1.0), kern).fit(&ds))) {
+            Ok(Ok(m)) => {
+                let o: Array1<bool> = m.predict(&pool);
+                let bad = (0..pool.nrows()).find(|&i| o[i] != (m.weighted_sum(&pool.row(i)) - m.rho >= 0.0));
+                ext_case(ctx, "svm_classification", bad.is_none(), "predict(x) = (weighted_sum(x) - rho >= 0)", &format!("{} first differing row {:?}", inst_name, bad.map(|i| pool.row(i).to_vec())));
+                let badrow = (0..pool.nrows()).find(|&i| { let one: bool = m.predict(pool.row(i)); let own: bool = m.predict(pool.row(i).to_owned()); one != o[i] || own != o[i] });
+                row_form_check(ctx, "svm_classification", badrow, &pool);
+                let asum: f64 = m.alpha.iter().map(|a| a.abs()).sum::<f64>() + m.rho.abs();
+                let mm = &m;
+                let near = move |row: &[f64]| !((mm.weighted_sum(&Array1::from(row.to_vec())) - mm.rho).abs() > 1e-9 * (1.0 + asum));
+                let xl = Xl { exact: false, scale: asum, near: Some(Box::new(near)), expo: false };
+                let pred = mk_pred!(m, Array1<bool>, f64, view);
+                metamorph(ctx, rng, "svm_classification", &inst_name, &pred, &pool, &xl);
+            }
+            _ => no_model(ctx, "svm_classification", "fit failed"),
+        }
+        // classification with probabilities (Platt inside the SVM)
+        match guarded(AssertUnwindSafe(|| with_kernel!(Svm::<f64, Pr>::params().pos_neg_weights(1.0, 1.0), kern).fit(&ds))) {
+            Ok(Ok(m)) => {
+                match svm_platt_coeffs(&format!("{:?}", m)) {
+                    Some((a, b)) => {
+                        let o: Array1<Pr> = m.predict(&pool);
+                        let dec: Vec<f64> = (0..pool.nrows()).map(|i| m.weighted_sum(&pool.row(i)) - m.rho).collect();
+                        let bad = (0..pool.nrows()).find(|&i| o[i].to_bits() != platt_predict(dec[i], a, b).to_bits());
+                        ext_case(ctx, "svm_probability", bad.is_none(), "predict(x) = platt_predict(weighted_sum(x) - rho, a, b)", &format!("{} first differing row {:?}", inst_name, bad.map(|i| pool.row(i).to_vec())));
+                        let badrow = (0..pool.nrows()).find(|&i| { let one: Pr = m.predict(pool.row(i)); one.to_bits() != o[i].to_bits() });
+                        row_form_check(ctx, "svm_probability", badrow, &pool);
+                        let id = ctx.next_id();
+                        if ctx.out.wanted(id) {
+                            let pts: Vec<(f64, u32, u32, i64)> = dec.iter().zip(o.iter()).map(|(v, pr)| { let (fb, eb) = platt_aux64(*v, a, b); (*v, fb, eb, pr.to_bits() as i64) }).collect();
+                            platt_case(ctx, id, false, a, b, &pts, "svm_probability");
+                        }
+                        let asum: f64 = (m.alpha.iter().map(|a| a.abs()).sum::<f64>() + m.rho.abs()) * (1.0 + a.abs()) + b.abs();
+                        let pred = mk_pred!(m, Array1<Pr>, f64, view);
+                        metamorph(ctx, rng, "svm_probability", &inst_name, &pred, &pool, &Xl::real(asum));
+                    }
+                    None => panic!("cannot read probability_coeffs from the Debug rendering of Svm"),
+                }
+            }
+            _ => no_model(ctx, "svm_probability", "fit failed"),
+        }
+        // regression
+        let yr: Array1<f64> = x.iter().map(|r| r.iter().enumerate().map(|(j, v)| v * (1.0 - 0.3 * j as f64)).sum::<f64>() + 0.2 * rng.gauss()).collect();
+        let dsr = DatasetBase::new(xa.clone(), yr.clone());
+        let nu = inst % 2 == 1;
+        match guarded(AssertUnwindSafe(|| {
+            let prm = Svm::<f64, f64>::params();
+            let prm = if nu { prm.nu_svr(0.5, Some(1.0)) } else { prm.c_svr(2.0, Some(0.1)) };
+            with_kernel!(prm, kern).fit(&dsr)
+        })) {
+            Ok(Ok(m)) => {
+                let o: Array1<f64> = m.predict(&pool);
+                let bad = (0..pool.nrows()).find(|&i| o[i].to_bits() != (m.weighted_sum(&pool.row(i)) - m.rho).to_bits());
+                ext_case(ctx, "svm_regression", bad.is_none(), "predict(x) = weighted_sum(x) - rho", &format!("{} first differing row {:?}", inst_name, bad.map(|i| pool.row(i).to_vec())));
+                let badrow = (0..pool.nrows()).find(|&i| { let one: f64 = m.predict(pool.row(i)); let own: f64 = m.predict(pool.row(i).to_owned()); one.to_bits() != o[i].to_bits() || own.to_bits() != o[i].to_bits() });
+                row_form_check(ctx, "svm_regression", badrow, &pool);
+                let asum: f64 = m.alpha.iter().map(|a| a.abs()).sum::<f64>() * (1.0 + maxabs(xa.as_slice().unwrap())) + m.rho.abs();
+                let pred = mk_pred!(m, Array1<f64>, f64, view);
+                metamorph(ctx, rng, "svm_regression", &inst_name, &pred, &pool, &Xl::real(asum));
+            }
+            _ => no_model(ctx, "svm_regression", "fit failed"),
+        }
+        if inst == 0 {
+            let ds32 = DatasetBase::new(xa.mapv(|v| v as f32), yr.mapv(|v| v as f32));
+            if let Ok(Ok(m)) = guarded(AssertUnwindSafe(|| Svm::<f32, f32>::params().c_svr(2.0, Some(0.1)).gaussian_kernel(8.0).fit(&ds32))) {
+                let pool32 = pool.mapv(|v| v as f32);
+                let asum: f64 = m.alpha.iter().map(|a| a.abs() as f64).sum::<f64>() + m.rho.abs() as f64;
+                let pred = mk_pred!(m, Array1<f32>, f32, view);
+                metamorph(ctx, rng, "svm_regression_f32", &inst_name, &pred, &pool32, &Xl::real(asum));
+            }
+        }
+        // one-class
+        let dso = DatasetBase::new(xa.clone(), Array1::from_elem(n, ()));
+        match guarded(AssertUnwindSafe(|| with_kernel!(Svm::<f64, Pr>::params().nu_weight(0.2), if let Kern::Lin = kern { Kern::Gauss(8.0) } else { kern }).fit(&dso))) {
+            Ok(Ok(m)) => {
+                let m: Svm<f64, bool> = m;
+                let o: Array1<bool> = m.predict(&pool);
+                let bad = (0..pool.nrows()).find(|&i| o[i] != (m.weighted_sum(&pool.row(i)) - m.rho >= 0.0));
+                ext_case(ctx, "svm_one_class", bad.is_none(), "predict(x) = (weighted_sum(x) - rho >= 0)", &format!("{} first differing row {:?}", inst_name, bad.map(|i| pool.row(i).to_vec())));
+                let asum: f64 = m.alpha.iter().map(|a| a.abs()).sum::<f64>() + m.rho.abs();
+                let mm = &m;
+                let near = move |row: &[f64]| !((mm.weighted_sum(&Array1::from(row.to_vec())) - mm.rho).abs() > 1e-9 * (1.0 + asum));
+                let xl = Xl { exact: false, scale: asum, near: Some(Box::new(near)), expo: false };
+                let pred = mk_pred!(m, Array1<bool>, f64, view);
+                metamorph(ctx, rng, "svm_one_class", &inst_name, &pred, &pool, &xl);
+            }
+            _ => no_model(ctx, "svm_one_class", "fit failed"),
+        }
+    }
+}
+
+// ---------------------------------------------------------------- decision tree
+fn tree_term(node: &TreeNode<f64, usize>, splits: &mut Vec<(usize, f64)>) -> String {
+    if node.is_leaf() {
+        format!("(Leaf {}%N)", node.prediction().unwrap())
+    } else {
+        let (f, v, _) = node.split();
+        splits.push((f, v));
+        let ch = node.children();
+        let l = tree_term(ch[0].as_ref().expect("internal node without left child"), splits);
+        let r = tree_term(ch[1].as_ref().expect("internal node without right child"), splits);
+        format!("(Node {}%nat {} {} {})", f, sf64(v), l, r)
+    }
+}
+
+fn tree_models(ctx: &mut Ctx, rng: &mut Sm64, ninst: usize) {
+    for inst in 0..ninst {
+        let p = pick_dim(rng, inst + 1, 9);
+        let k = 2 + inst % 3;
+        let n = 30 + rng.below(30) as usize;
+        let (x, y) = blobs(rng, n, p, k, (inst % 2) as u64);
+        let xa: Array2<f64> = arr(&x);
+        let ds = DatasetBase::new(xa.clone(), Array1::from(y.iter().map(|c| c * 5 + 2).collect::<Vec<usize>>()));
+        let depth = 2 + inst % 4;
+        let model = match guarded(AssertUnwindSafe(|| DecisionTree::params().max_depth(Some(depth)).fit(&ds))) { Ok(Ok(m)) => m, _ => { no_model(ctx, "decision_tree", "fit failed"); continue; } };
+        let mut splits = Vec::new();
+        let term = tree_term(model.root_node(), &mut splits);
+        // rows sitting exactly on a split value (x[feature] <= split goes left), and one ulp around it
+        let mut extra = Vec::new();
+        for (f, v) in splits.iter().take(8) {
+            for dv in [*v, next_up(*v), next_down(*v)] {
+                let mut r = x[rng.below(n as u64) as usize].clone();
+                r[*f] = dv;
+                extra.push(r);
+            }
+        }
+        let pool: Array2<f64> = arr(&pool_rows(rng, &x, &extra));
+        let id = ctx.next_id();
+        if ctx.out.wanted(id) {
+            let o: Array1<usize> = model.predict(&pool);
+            let coq = format!("CTREE {} {} {} {}", cn(id), term, cmat64(&rows_of(&pool.view())), cvecn(&o.to_vec()));
+            let desc = format!("{{\"predictor\": \"decision_tree\", \"internal_nodes\": {}, \"queries\": {}, \"queries_on_split_values\": {}}}", splits.len(), pool.nrows(), extra.len());
+            ctx.out.bump("coq_tree");
+            ctx.out.bump_by("coq_tree_rows_on_split_value", (extra.len() / 3) as u64);
+            ctx.out.case(id, &coq, &["predictor_decision_tree"], &desc, if splits.is_empty() { None } else { Some(fnv(desc.as_bytes()) ^ id) });
+        }
+        let pred = mk_pred!(model, Array1<usize>, f64, view);
+        metamorph(ctx, rng, "decision_tree", &format!("p={} depth<={} splits={}", p, depth, splits.len()), &pred, &pool, &Xl::exact());
+        if inst == 0 {
+            let ds32 = DatasetBase::new(xa.mapv(|v| v as f32), ds.targets().clone());
+            if let Ok(Ok(m)) = guarded(AssertUnwindSafe(|| DecisionTree::<f32, usize>::params().max_depth(Some(depth)).fit(&ds32))) {
+                let pool32 = pool.mapv(|v| v as f32);
+                let pred = mk_pred!(m, Array1<usize>, f32, view);
+                metamorph(ctx, rng, "decision_tree_f32", "f32", &pred, &pool32, &Xl::exact());
+            }
+        }
+    }
+}
+
+// ---------------------------------------------------------------- naive Bayes
+/// per-class fitted statistics (private HashMap<label, info>) from the bincode image:
+/// (label, prior, first array, second array) with info = {class_count, prior, array, array}
+fn nb_classes(bytes: &[u8]) -> Option<Vec<(usize, f64, Vec<f64>, Vec<f64>)>> {
+    let mut r = Rd { b: bytes, pos: 0 };
+    let n = r.u64()? as usize;
+    if n > 1000 { return None; }
+    let mut v = Vec::new();
+    for _ in 0..n {
+        let label = r.u64()? as usize;
+        let _count = r.u64()?;
+        let prior = r.f64()?;
+        let a = r.arr1()?;
+        let b = r.arr1()?;
+        v.push((label, prior, a, b));
+    }
+    if r.done() { Some(v) } else { None }
+}
+/// the predicted label must attain the maximal joint log-likelihood (recomputed naively) up to rounding
+fn nb_argmax_check(pool: &Array2<f64>, pred: &Array1<usize>, classes: &[(usize, f64, Vec<f64>, Vec<f64>)], jll: &dyn Fn(&[f64], &(usize, f64, Vec<f64>, Vec<f64>)) -> f64) -> Option<usize> {
+    (0..pool.nrows()).find(|&i| {
+        let row = pool.row(i).to_vec();
+        let vals: Vec<(usize, f64)> = classes.iter().map(|c| (c.0, jll(&row, c))).collect();
+        let mx = vals.iter().map(|v| v.1).fold(f64::NEG_INFINITY, f64::max);
+        match vals.iter().find(|v| v.0 == pred[i]) {
+            None => true,
+            Some(v) => !(v.1 >= mx - 1e-9 * (1.0 + mx.abs())),
+        }
+    })
+}
+fn bayes_models(ctx: &mut Ctx, rng: &mut Sm64, ninst: usize) {
+    for inst in 0..ninst {
+        // fewer than 8 features: the row sums then run in the same order in every layout
+        let p = pick_dim(rng, inst + 2, 5);
+        let k = 2 + inst % 3;
+        let n = 30 + rng.below(30) as usize;
+        let (x, y) = blobs(rng, n, p, k, 0);
+        let labels = Array1::from(y.iter().map(|c| c * 3 + 1).collect::<Vec<usize>>());
+        let ds = DatasetBase::new(arr::<f64>(&x), labels.clone());
+        match guarded(AssertUnwindSafe(|| GaussianNb::params().fit(&ds))) {
+            Ok(Ok(m)) => {
+                let pool: Array2<f64> = arr(&pool_rows(rng, &x, &[]));
+                let classes = match bincode::serialize(&m).ok().and_then(|b| nb_classes(&b)) { Some(c) => c, None => panic!("cannot read the class statistics of GaussianNb from its bincode image") };
+                let o: Array1<usize> = m.predict(&pool);
+                let bad = nb_argmax_check(&pool, &o, &classes, &|row, c| {
+                    let (theta, sigma) = (&c.2, &c.3);
+                    let a: f64 = sigma.iter().map(|s| (2.0 * std::f64::consts::PI * s).ln()).sum();
+                    let b: f64 = row.iter().zip(theta.iter().zip(sigma)).map(|(x, (t, s))| (x - t) * (x - t) / s).sum();
+                    -0.5 * a - 0.5 * b + c.1.ln()
+                });
+                ext_case(ctx, "gaussian_nb", bad.is_none(), "predict(x) attains the maximal joint log-likelihood of the fitted class statistics", &format!("first differing row {:?}", bad.map(|i| pool.row(i).to_vec())));
+                let pred = mk_pred!(m, Array1<usize>, f64, view);
+                let xl = Xl { exact: false, scale: 1.0, near: None, expo: false };
+                metamorph(ctx, rng, "gaussian_nb", &format!("p={} classes={}", p, k), &pred, &pool, &xl);
+            }
+            _ => no_model(ctx, "gaussian_nb", "fit failed"),
+        }
+        let xc: Vec<Vec<f64>> = y.iter().map(|c| (0..p).map(|j| (rng.below(4) + if j % k == *c { 3 } else { 0 }) as f64).collect()).collect();
+        let dsc = DatasetBase::new(arr::<f64>(&xc), labels);
+        match guarded(AssertUnwindSafe(|| MultinomialNb::params().fit(&dsc))) {
+            Ok(Ok(m)) => {
+                let q: Vec<Vec<f64>> = (0..20).map(|i| if i < 8 { xc[rng.below(n as u64) as usize].clone() } else { (0..p).map(|_| rng.below(6) as f64).collect() }).collect();
+                let pool: Array2<f64> = arr(&q);
+                let classes = match bincode::serialize(&m).ok().and_then(|b| nb_classes(&b)) { Some(c) => c, None => panic!("cannot read the class statistics of MultinomialNb from its bincode image") };
+                let o: Array1<usize> = m.predict(&pool);
+                let bad = nb_argmax_check(&pool, &o, &classes, &|row, c| row.iter().zip(&c.3).map(|(x, l)| x * l).sum::<f64>() + c.1.ln());
+                ext_case(ctx, "multinomial_nb", bad.is_none(), "predict(x) attains the maximal joint log-likelihood x.feature_log_prob + ln prior", &format!("first differing row {:?}", bad.map(|i| pool.row(i).to_vec())));
+                let pred = mk_pred!(m, Array1<usize>, f64, view);
+                let xl = Xl { exact: false, scale: 1.0, near: None, expo: false };
+                metamorph(ctx, rng, "multinomial_nb", &format!("p={} classes={}", p, k), &pred, &pool, &xl);
+            }
+            _ => no_model(ctx, "multinomial_nb", "fit failed"),
+        }
+    }
+}
+
+// ---------------------------------------------------------------- FTRL
+fn ftrl_sigmoid(v: f64) -> f64 {
+    let v = v.min(35.0).max(-35.0);
+    if v.is_sign_negative() { let e = v.exp(); e / (e + 1.0) } else { 1.0 / (1.0 + (-v).exp()) }
+}
+fn fit_ftrl(x: &Array2<f64>, y: &Array1<bool>, passes: usize, alpha: f64) -> Option<Ftrl<f64>> {
+    let ds = DatasetBase::new(x.clone(), y.clone());
+    guarded(AssertUnwindSafe(|| {
+        let params = Ftrl::params().alpha(alpha).beta(1.0).l1_ratio(0.01).l2_ratio(0.05);
+        let mut m = params.fit_with(None, &ds).ok()?;
+        for _ in 1..passes { m = params.fit_with(Some(m), &ds).ok()?; }
+        Some(m)
+    })).ok().flatten()
+}
+fn ftrl_models(ctx: &mut Ctx, rng: &mut Sm64, ninst: usize) {
+    for inst in 0..ninst {
+        let p = pick_dim(rng, inst, 17);
+        let n = 40 + rng.below(20) as usize;
+        let (x, y) = blobs(rng, n, p, 2, 0);
+        let xa: Array2<f64> = arr(&x);
+        let yb: Array1<bool> = y.iter().map(|c| *c == 1).collect();
+        let m = match fit_ftrl(&xa, &yb, 3 + inst % 3, 0.05 + 0.1 * (inst % 3) as f64) { Some(m) => m, None => { no_model(ctx, "ftrl", "fit failed"); continue; } };
+        let pool: Array2<f64> = arr(&pool_rows(rng, &x, &[]));
+        let w = m.get_weights().to_vec();
+        let o: Array1<Pr> = m.predict(&pool);
+        let bad = (0..pool.nrows()).find(|&i| o[i].to_bits() != (ftrl_sigmoid(udot(pool.row(i).as_slice().unwrap(), &w)) as f32).to_bits());
+        ext_case(ctx, "ftrl", bad.is_none(), "predict(x) = stable_sigmoid(unrolled_dot(x, get_weights())) as f32", &format!("p={} first differing row {:?} weights {:?}", p, bad.map(|i| pool.row(i).to_vec()), w));
+        let pred = mk_pred!(m, Array1<Pr>, f64, view);
+        metamorph(ctx, rng, "ftrl", &format!("p={}", p), &pred, &pool, &Xl::real(maxabs(&w)));
+    }
+}
+
+// ---------------------------------------------------------------- PCA, PLS
+fn reduction_models(ctx: &mut Ctx, rng: &mut Sm64, ninst: usize) {
+    for inst in 0..ninst {
+        let p = pick_dim(rng, inst, 9).max(2);
+        let n = 3 * p + 10 + rng.below(10) as usize;
+        let (x, y) = regdata(rng, n, p, 0.5);
+        let xa: Array2<f64> = arr(&x);
+        let ds = DatasetBase::new(xa.clone(), Array1::from(y.clone()));
+        let pool: Array2<f64> = arr(&pool_rows(rng, &x, &[]));
+        // embedding sizes 1, 2 or p: the sizes for which the external eigen-solver is reliable
+        let k = if inst % 3 == 0 { 1 } else if inst % 3 == 1 { 2.min(p) } else { p };
+        match guarded(AssertUnwindSafe(|| Pca::params(k).fit(&ds))) {
+            Ok(Ok(m)) => {
+                let o: Array2<f64> = m.predict(&pool);
+                let w = m.components().t().to_owned();
+                aff_case(ctx, "pca", 0, &m.mean().to_vec(), &[], &w, &vec![0.0; w.ncols()], &pool, &rows_of(&o.view()), &[]);
+                let sc = (1.0 + maxabs(&m.mean().to_vec())) * w.iter().fold(0.0f64, |a, v| a.max(v.abs()));
+                let pred = mk_pred!(m, Array2<f64>, f64, view);
+                metamorph(ctx, rng, "pca", &format!("p={} k={}", p, k), &pred, &pool, &Xl::real(sc));
+            }
+            _ => no_model(ctx, "pca", "fit failed"),
+        }
+        let t = 1 + inst % 2;
+        let y2 = Array2::from_shape_fn((n, t), |(i, j)| y[i] + j as f64 * x[i][p - 1]);
+        let ds2 = DatasetBase::new(xa.clone(), y2);
+        let kc = 1 + inst % 2.min(p);
+        match guarded(AssertUnwindSafe(|| PlsRegression::params(kc).fit(&ds2))) {
+            Ok(Ok(m)) => {
+                // x_mean, x_std, y_mean are private: read them from the bincode image (field order of Pls)
+                let img = bincode::serialize(&m).expect("bincode image of PlsRegression");
+                let mut rd = Rd { b: &img, pos: 0 };
+                let parsed = (|| { let xm = rd.arr1()?; let xs = rd.arr1()?; let ym = rd.arr1()?; let _ys = rd.arr1()?;
+                    for _ in 0..6 { rd.arr2()?; }
+                    let coef = rd.arr2()?; if rd.done() { Some((xm, xs, ym, coef)) } else { None } })();
+                let (xm, xs, ym, coef) = match parsed { Some(t) => t, None => panic!("cannot read the fitted parameters of PlsRegression from its bincode image") };
+                assert!(coef == *m.coefficients(), "bincode image of PlsRegression: coefficients differ from the accessor");
+                let o: Array2<f64> = m.predict(&pool);
+                aff_case(ctx, "pls", 0, &xm, &xs, &coef, &ym, &pool, &rows_of(&o.view()), &[]);
+                let sc = m.coefficients().iter().fold(0.0f64, |a, v| a.max(v.abs())) * 8.0 + 8.0;
+                let pred = mk_pred!(m, Array2<f64>, f64, view);
+                metamorph(ctx, rng, "pls", &format!("p={} components={} targets={}", p, kc, t), &pred, &pool, &Xl::real(sc));
+            }
+            _ => no_model(ctx, "pls", "fit failed"),
+        }
+    }
+}
+
+// ---------------------------------------------------------------- wrappers over fitted members
+fn composed_models(ctx: &mut Ctx, rng: &mut Sm64, ninst: usize) {
+    for inst in 0..ninst {
+        let p = pick_dim(rng, inst + 1, 9);
+        let n = 40 + rng.below(10) as usize;
+        let (x, y) = regdata(rng, n, p, 0.4);
+        let xa: Array2<f64> = arr(&x);
+        let pool: Array2<f64> = arr(&pool_rows(rng, &x, &[]));
+        // multi-target: one OLS per target column
+        let t = 2 + inst % 3;
+        let mut members = Vec::new();
+        for j in 0..t {
+            let yj: Array1<f64> = (0..n).map(|i| y[i] * (1.0 + j as f64) - 2.0 * j as f64 * x[i][0]).collect();
+            if let Ok(Ok(m)) = guarded(AssertUnwindSafe(|| LinearRegression::new().fit(&DatasetBase::new(xa.clone(), yj)))) { members.push(m); }
+        }
+        if members.len() == t {
+            let sc = members.iter().map(|m| maxabs(&m.params().to_vec()) + m.intercept().abs()).fold(0.0, f64::max);
+            let wrapper: MultiTargetModel<Array2<f64>, f64> = members.iter().cloned().collect();
+            // column j of the wrapper is member j's prediction, bit for bit
+            let o: Array2<f64> = wrapper.predict(&pool);
+            let mut ok = o.nrows() == pool.nrows() && o.ncols() == t;
+            for (j, m) in members.iter().enumerate() {
+                let oj: Array1<f64> = m.predict(&pool);
+                ok = ok && (0..pool.nrows()).all(|i| o[(i, j)].to_bits() == oj[i].to_bits());
+            }
+            let id = ctx.next_id();
+            if ctx.out.wanted(id) {
+                let desc = format!("{{\"wrapper\": \"MultiTargetModel over OLS members\", \"members\": {}, \"rows\": {}}}", t, pool.nrows());
+                ctx.out.bump("multi_target_fitted_columns");
+                ctx.out.rust_eval(&desc, Some(fnv(desc.as_bytes()) ^ id));
+                if !ok { ctx.out.rust_fail(id, 128, &["wrapper_multi_target"], "a column of the multi-target prediction differs from the member model's own prediction", &desc); }
+            }
+            let pred = mk_pred!(wrapper, Array2<f64>, f64);
+            metamorph(ctx, rng, "multi_target_ols", &format!("p={} targets={}", p, t), &pred, &pool, &Xl::real(sc));
+        } else { no_model(ctx, "multi_target_ols", "member fit failed"); }
+
+        // multi-class: one-vs-rest FTRL members
+        let k = 3;
+        let (xc, yc) = blobs(rng, 60, p, k, 0);
+        let xca: Array2<f64> = arr(&xc);
+        let poolc: Array2<f64> = arr(&pool_rows(rng, &xc, &[]));
+        let mut ms = Vec::new();
+        for c in 0..k {
+            let yb: Array1<bool> = yc.iter().map(|l| *l == c).collect();
+            if let Some(m) = fit_ftrl(&xca, &yb, 4, 0.1) { ms.push((100 + c, m)); }
+        }
+        if ms.len() == k {
+            let sc = ms.iter().map(|(_, m)| maxabs(&m.get_weights().to_vec())).fold(0.0, f64::max);
+            let probs: Vec<Array1<Pr>> = ms.iter().map(|(_, m)| m.predict(&poolc)).collect();
+            let wrapper: MultiClassModel<Array2<f64>, usize> = ms.iter().cloned().collect();
+            let o: Array1<usize> = wrapper.predict(&poolc);
+            // the returned label is the label of a member with maximal probability
+            let ok = o.len() == poolc.nrows() && (0..poolc.nrows()).all(|i| {
+                let mx = probs.iter().map(|v| *v[i]).fold(f32::NEG_INFINITY, f32::max);
+                ms.iter().zip(&probs).any(|((l, _), v)| *l == o[i] && *v[i] == mx)
+            });
+            let id = ctx.next_id();
+            if ctx.out.wanted(id) {
+                let desc = format!("{{\"wrapper\": \"MultiClassModel over one-vs-rest FTRL members\", \"members\": {}, \"rows\": {}}}", k, poolc.nrows());
+                ctx.out.bump("multi_class_fitted_argmax");
+                ctx.out.rust_eval(&desc, Some(fnv(desc.as_bytes()) ^ id));
+                if !ok { ctx.out.rust_fail(id, 256, &["wrapper_multi_class"], "the multi-class label is not the label of a member with maximal probability", &desc); }
+            }
+            let probs2 = probs.clone();
+            let poolrows = rows_f64(&poolc);
+            let near = move |row: &[f64]| {
+                // rows whose two best member probabilities are closer than f32 rounding of the sums
+                match poolrows.iter().position(|r| r.as_slice() == row) {
+                    Some(i) => { let mut v: Vec<f32> = probs2.iter().map(|q| *q[i]).collect(); v.sort_by(|a, b| b.partial_cmp(a).unwrap()); (v[0] - v[1]).abs() <= 1e-6 }
+                    None => true,
+                }
+            };
+            let xl = Xl { exact: false, scale: sc, near: Some(Box::new(near)), expo: false };
+            let pred = mk_pred!(wrapper, Array1<usize>, f64);
+            metamorph(ctx, rng, "multi_class_ftrl", &format!("p={} classes={}", p, k), &pred, &poolc, &xl);
+        } else { no_model(ctx, "multi_class_ftrl", "member fit failed"); }
+
+        // Platt calibration of a fitted regressor's decision value
+        let yb: Array1<bool> = y.iter().map(|v| *v + 1.5 * rng.gauss() > 0.0).collect();
+        if let Ok(Ok(inner)) = guarded(AssertUnwindSafe(|| LinearRegression::new().fit(&DatasetBase::new(xa.clone(), Array1::from(y.clone()))))) {
+            platt_wrapper_check(ctx, rng, "platt_ols", inner, &xa, &yb, &pool);
+        }
+    }
+}
+
+// ---------------------------------------------------------------- further f32 instances (metamorphic programme only)
+fn f32_models(ctx: &mut Ctx, rng: &mut Sm64, ninst: usize) {
+    for inst in 0..(ninst + 1) / 2 {
+        let p = pick_dim(rng, inst, 9);
+        let n = 40 + rng.below(20) as usize;
+        let (x, y) = regdata(rng, n, p, 0.3);
+        let xa: Array2<f32> = arr(&x);
+        let ya: Array1<f32> = y.iter().map(|v| *v as f32).collect();
+        let pool: Array2<f32> = arr(&pool_rows(rng, &x, &[]));
+        if let Ok(Ok(m)) = guarded(AssertUnwindSafe(|| LinearRegression::new().fit(&DatasetBase::new(xa.clone(), ya.clone())))) {
+            let sc = m.params().iter().fold(0.0f64, |a, v| a.max(v.abs() as f64)) + m.intercept().abs() as f64;
+            let pred = mk_pred!(m, Array1<f32>, f32, view);
+            metamorph(ctx, rng, "ols_f32", &format!("p={}", p), &pred, &pool, &Xl::real(sc));
+        } else { no_model(ctx, "ols_f32", "fit failed"); }
+        let t = 2;
+        let y2 = Array2::from_shape_fn((n, t), |(i, j)| (y[i] + j as f64 * x[i][0]) as f32);
+        if let Ok(Ok(m)) = guarded(AssertUnwindSafe(|| PlsRegression::<f32>::params(1).fit(&DatasetBase::new(xa.clone(), y2)))) {
+            let sc = m.coefficients().iter().fold(0.0f64, |a, v| a.max(v.abs() as f64)) * 8.0 + 8.0;
+            let pred = mk_pred!(m, Array2<f32>, f32, view);
+            metamorph(ctx, rng, "pls_f32", &format!("p={}", p), &pred, &pool, &Xl::real(sc));
+        } else { no_model(ctx, "pls_f32", "fit failed"); }
+
+        let pc = pick_dim(rng, inst + 2, 5);
+        let (xc, yc) = blobs(rng, n, pc, 2, 0);
+        let xc: Vec<Vec<f64>> = xc.iter().map(|r| r.iter().map(|v| 0.4 * v + 1.5 * rng.gauss()).collect()).collect();
+        let xca: Array2<f32> = arr(&xc);
+        let poolc: Array2<f32> = arr(&pool_rows(rng, &xc, &[]));
+        let lab: Array1<usize> = yc.iter().map(|c| c * 4 + 1).collect();
+        if let Ok(Ok(m)) = guarded(AssertUnwindSafe(|| LogisticRegression::default().alpha(0.5).max_iterations(200).fit(&DatasetBase::new(xca.clone(), lab.clone())))) {
+            let mm = &m;
+            let near = move |row: &[f64]| {
+                let r = Array2::from_shape_vec((1, row.len()), row.iter().map(|v| *v as f32).collect()).unwrap();
+                !((mm.predict_probabilities(&r)[0] - 0.5).abs() > 1e-4)
+            };
+            let xl = Xl { exact: false, scale: 1.0, near: Some(Box::new(near)), expo: false };
+            let pred = mk_pred!(m, Array1<usize>, f32, view);
+            metamorph(ctx, rng, "logistic_f32", &format!("p={}", pc), &pred, &poolc, &xl);
+        } else { no_model(ctx, "logistic_f32", "fit failed"); }
+        if let Ok(Ok(m)) = guarded(AssertUnwindSafe(|| GaussianNb::params().fit(&DatasetBase::new(xca.clone(), lab.clone())))) {
+            let pred = mk_pred!(m, Array1<usize>, f32, view);
+            let xl = Xl { exact: false, scale: 1.0, near: None, expo: false };
+            metamorph(ctx, rng, "gaussian_nb_f32", &format!("p={}", pc), &pred, &poolc, &xl);
+        } else { no_model(ctx, "gaussian_nb_f32", "fit failed"); }
+        let yb: Array1<bool> = yc.iter().map(|c| *c == 1).collect();
+        let fitted = guarded(AssertUnwindSafe(|| {
+            let params = Ftrl::<f32>::params().alpha(0.1).beta(1.0).l1_ratio(0.01).l2_ratio(0.05);
+            let ds = DatasetBase::new(xca.clone(), yb.clone());
+            let m = params.fit_with(None, &ds).ok()?;
+            params.fit_with(Some(m), &ds).ok()
+        })).ok().flatten();
+        if let Some(m) = fitted {
+            let sc = m.get_weights().iter().fold(0.0f64, |a, v| a.max(v.abs() as f64));
+            let pred = mk_pred!(m, Array1<Pr>, f32, view);
+            metamorph(ctx, rng, "ftrl_f32", &format!("p={}", pc), &pred, &poolc, &Xl::real(sc));
+        } else { no_model(ctx, "ftrl_f32", "fit failed"); }
+        let (xg, _) = blobs(rng, 50, pc, 2, 0);
+        let seed = rng.below(1000);
+        if let Ok(Ok(m)) = guarded(AssertUnwindSafe(|| GaussianMixtureModel::params(2).with_rng(Xoshiro256Plus::seed_from_u64(seed)).n_runs(2).tolerance(1e-3).fit(&DatasetBase::from(arr::<f32>(&xg))))) {
+            let poolg: Array2<f32> = arr(&pool_rows(rng, &xg, &[]));
+            let mm = &m;
+            let near = move |row: &[f64]| {
+                let r = Array2::from_shape_vec((1, row.len()), row.iter().map(|v| *v as f32).collect()).unwrap();
+                let mut pr = mm.predict_proba(&r).row(0).to_vec();
+                pr.sort_by(|a, b| b.partial_cmp(a).unwrap_or(std::cmp::Ordering::Equal));
+                pr.len() < 2 || !((pr[0] - pr[1]).abs() > 1e-4)
+            };
+            let xl = Xl { exact: false, scale: 1.0, near: Some(Box::new(near)), expo: false };
+            let pred = mk_pred!(m, Array1<usize>, f32, view);
+            metamorph(ctx, rng, "gmm_f32", &format!("p={}", pc), &pred, &poolg, &xl);
+        } else { no_model(ctx, "gmm_f32", "fit failed"); }
+    }
+}
+// ================================================================================================
+// C03 harness, part 5: the run.
+fn main() {
+    let args = parse_args();
+    // watchdog: a fit that does not terminate must not hang the check
+    std::thread::spawn(|| {
+        std::thread::sleep(std::time::Duration::from_secs(900));
+        eprintln!("c03 harness: watchdog - generation did not finish within 900 s (a library fit does not terminate?)");
+        std::process::exit(3);
+    });
+    let thorough = args.tier == "thorough";
+    let mut rng = Sm64::new(args.seed);
+    let mut ctx = Ctx {
+        out: Out::new(&args.out, args.shards, "C03.Corr", "case", args.only),
+        id: 0,
+        nbatches: if thorough { 16 } else { 8 },
+        max_xl_ulps: 0.0,
+        max_xl_window: 0.0,
+    };
+    let ninst = if thorough { 20 } else { 5 };
+    // every section draws from its own child generator, so that a replay of one id is stable
+    let t0 = std::time::Instant::now();
+    macro_rules! lap { ($n:expr) => { if std::env::var("C03_TRACE").is_ok() { eprintln!("{:>8.2}s {}", t0.elapsed().as_secs_f64(), $n); } }; }
+    lap!("multi_target_cases");
+    let mut r = rng.fork(); multi_target_cases(&mut ctx, &mut r, thorough);
+    lap!("multi_class_cases");
+    let mut r = rng.fork(); multi_class_cases(&mut ctx, &mut r, thorough);
+    lap!("platt_direct_cases");
+    let mut r = rng.fork(); platt_direct_cases(&mut ctx, &mut r, thorough);
+    lap!("platt_mock_cases");
+    let mut r = rng.fork(); platt_mock_cases(&mut ctx, &mut r, thorough);
+    lap!("kmeans_models");
+    let mut r = rng.fork(); kmeans_models(&mut ctx, &mut r, ninst);
+    lap!("gmm_models");
+    let mut r = rng.fork(); gmm_models(&mut ctx, &mut r, ninst);
+    lap!("linear_models");
+    let mut r = rng.fork(); linear_models(&mut ctx, &mut r, ninst);
+    lap!("isotonic_models");
+    let mut r = rng.fork(); isotonic_models(&mut ctx, &mut r, 3 * ninst);
+    lap!("logistic_models");
+    let mut r = rng.fork(); logistic_models(&mut ctx, &mut r, ninst);
+    lap!("svm_models");
+    let mut r = rng.fork(); svm_models(&mut ctx, &mut r, ninst);
+    lap!("tree_models");
+    let mut r = rng.fork(); tree_models(&mut ctx, &mut r, ninst);
+    lap!("bayes_models");
+    let mut r = rng.fork(); bayes_models(&mut ctx, &mut r, ninst);
+    lap!("ftrl_models");
+    let mut r = rng.fork(); ftrl_models(&mut ctx, &mut r, ninst);
+    lap!("reduction_models");
+    let mut r = rng.fork(); reduction_models(&mut ctx, &mut r, ninst);
+    lap!("f32_models");
+    let mut r = rng.fork(); f32_models(&mut ctx, &mut r, ninst);
+    lap!("composed_models");
+    let mut r = rng.fork(); composed_models(&mut ctx, &mut r, ninst);
+    // largest cross-layout difference seen, in units of 1e-3 ulp of the larger value
+    let ulps = (ctx.max_xl_ulps * 1000.0).min(1.0e15) as u64;
+    ctx.out.bump_by("xl_max_difference_milli_ulps", ulps);
+    // largest fraction of the cross-layout rounding window that was consumed, in 1e-6
+    let win = (ctx.max_xl_window * 1.0e6).min(1.0e15) as u64;
+    ctx.out.bump_by("xl_max_window_fraction_ppm", win);
+    ctx.out.finish("per predictor type: fitted instances over feature counts {1,2,3,5,8,9,17} x batches (whole pool, empty, single row, one row three times, random rows with repeats), each batch predicted whole / row by row / permuted / with duplicates / in halves / through every calling form / in column-major, strided and reversed layouts; Coq cases: exhaustive (rows, members) in 0..4 x 0..4 for both wrappers plus random and malformed members, platt_predict over special and random (a, b, x), one case per fitted k-means / linear / tree / isotonic / affine model; a case is non-trivial when the batch has >= 2 rows (metamorphic) or the wrapper has >= 2 members; distinct = distinct canonical inputs");
+}
